@@ -305,11 +305,25 @@ fn snapshot<SP: aranya_runtime::StorageProvider>(r: &mut Replica<SP>) -> Result<
     Ok(Snap { heads, cmds, facts })
 }
 
+/// the state a (continuation) workload starts from: nothing, or a reopened crash image
+#[derive(Clone, Default)]
+struct Base {
+    /// the control record `open` recovered (None: the file is freshly created)
+    root: Option<RootT>,
+    /// records that were intact below the recovered free offset
+    records: Vec<(u64, Vec<u8>)>,
+    snap: Option<Snap>,
+    sim: Sim,
+    /// request / real-answer lines that bring the model driver into this state
+    prefix_lines: Vec<(String, String)>,
+}
+
 struct Case {
     graph: GraphId,
     calls: Vec<HiCall>,
-    /// snapshot of the live storage taken while exactly `k` commits had completed
+    /// snapshot of the live storage taken while exactly `k` commits (of this case) had completed
     snaps: BTreeMap<usize, Snap>,
+    base: Base,
 }
 
 fn scratch_root() -> PathBuf {
@@ -397,37 +411,50 @@ fn record_workload(rec: &mut Recorder, rng: &mut Rng, root: &Path, size: usize) 
     drop(r);
     let _ = verif_io_log::stop();
     let calls = log.borrow().clone();
-    Case { graph, calls, snaps }
+    Case { graph, calls, snaps, base: Base::default() }
 }
 
-/// replay: run the storage calls of a request list directly against the real `Writer`
-fn record_replay(root: &Path, lines: &[String]) -> Case {
+/// Continue on a reopened crash image: the image file is put into a fresh directory, opened with
+/// the real provider (spy on), and a few more actions / commits are run on it.
+fn record_continuation(rec: &mut Recorder, rng: &mut Rng, root: &Path, graph: GraphId, base: Base, actions: usize) -> Case {
     let dir = fresh_dir(root, "live");
-    let graph = GraphId::transmute(hash_id(b"c15-replay"));
+    let (img, size) = base.sim.crash(&[], false);
+    {
+        let f = fs::File::create(dir.join(graph.to_string())).expect("image file");
+        f.write_all_at(&img, 0).expect("write image");
+        f.set_len(size).expect("set_len");
+    }
     let log: Log = Rc::new(RefCell::new(vec![]));
     verif_io_log::start();
-    let mut mgr = SpyManager { inner: FileManager::new(&dir).expect("FileManager"), log: log.clone() };
-    let mut w: Option<SpyWriter> = None;
-    for l in lines {
-        let t: Vec<&str> = l.split(' ').collect();
-        match t[0] {
-            "create" => w = Some(mgr.create(graph).expect("create")),
-            "append" => {
-                let b = unhex(t[1]).expect("hex");
-                let _ = w.as_mut().expect("create first").append(|_| Raw(b));
+    let mgr = SpyManager { inner: FileManager::new(&dir).expect("FileManager"), log: log.clone() };
+    let mut r = Replica::new(LinearStorageProvider::new(mgr), graph);
+    let mut snaps = BTreeMap::new();
+    let p = DagParams::default();
+    for nonce in 0..actions {
+        let body = gen_body(rng, &p);
+        let act = KAction {
+            cmds: vec![(Priority::Basic(rng.below(3) as u32), body)],
+            nonce: 1_000_000 + nonce as u64,
+            init: false,
+        };
+        match r.action(act) {
+            Ok(_) => rec.count("cont:action_ok"),
+            Err(e) => rec.count(&format!("cont:action_err:{}", err_name(&e))),
+        }
+        let k = commits_done(&log.borrow());
+        if k > 0 {
+            match snapshot(&mut r) {
+                Ok(s) => {
+                    snaps.insert(k, s);
+                }
+                Err(e) => rec.oracle_fail(format!("continuation: live storage unreadable after commit {k}: {e}")),
             }
-            "commit" => {
-                let b = unhex(t[1]).expect("hex");
-                let heads: HeadSet = postcard::from_bytes(&b).expect("head set bytes");
-                let _ = w.as_mut().expect("create first").commit(&heads, FactCacheOffset::new(t[2].parse().expect("fact")));
-            }
-            _ => {}
         }
     }
-    drop(w);
+    drop(r);
     let _ = verif_io_log::stop();
     let calls = log.borrow().clone();
-    Case { graph, calls, snaps: BTreeMap::new() }
+    Case { graph, calls, snaps, base }
 }
 
 // ------------------------------------------------------------------------------------- image check
@@ -477,6 +504,14 @@ fn check_image(cx: &mut Ctx, rec: &mut Recorder, sim: &Sim, ci: usize, k: usize,
         .filter(|c| matches!(c.hi, Hi::Commit(..)))
         .filter_map(|c| c.after)
         .collect();
+    // commit 0 = the state this case started from (a reopened image), if any
+    let root_of = |j: usize| -> Option<RootT> {
+        if j == 0 {
+            cx.case.base.root
+        } else {
+            commit_roots.get(j - 1).copied()
+        }
+    };
     let what = |s: String| format!("{label}: crash after {k} ops of call #{ci} ({}) χ={}: {s}", call_line(&calls[ci].hi).split(' ').next().unwrap(), if chi.is_empty() { "-".into() } else { chi.join(",") });
 
     // 1. raw open with the real FileManager
@@ -499,27 +534,31 @@ fn check_image(cx: &mut Ctx, rec: &mut Recorder, sim: &Sim, ci: usize, k: usize,
     match &opened {
         None => {
             rec.count("verdict:err");
-            if done > 0 {
-                rec.oracle_fail(what(format!("open fails although {done} commit(s) had completed")));
+            if root_of(done).is_some() {
+                rec.oracle_fail(what(format!(
+                    "open fails although {} commit(s) had completed",
+                    done + usize::from(cx.case.base.root.is_some())
+                )));
             }
         }
         Some(t) => {
-            let j = commit_roots.iter().position(|r| r == t).map(|p| p + 1);
-            match j {
-                Some(j) if j == done && done > 0 => rec.count("verdict:last_completed"),
-                Some(j) if Some(j) == inprog => rec.count("verdict:in_progress"),
-                _ => {
-                    rec.oracle_fail(what(format!(
-                        "recovered root {} is neither the last completed commit ({done}) nor the commit in progress ({inprog:?}); it matches commit {j:?}",
-                        show_root(t)
-                    )));
-                    return verdict;
-                }
-            }
-            let j = j.unwrap();
+            let j = if root_of(done) == Some(*t) {
+                rec.count("verdict:last_completed");
+                done
+            } else if inprog.and_then(root_of) == Some(*t) {
+                rec.count("verdict:in_progress");
+                done + 1
+            } else {
+                let m = (0..=commit_roots.len()).find(|j| root_of(*j) == Some(*t));
+                rec.oracle_fail(what(format!(
+                    "recovered root {} is neither the last completed commit ({done}) nor the commit in progress ({inprog:?}); it matches commit {m:?}",
+                    show_root(t)
+                )));
+                return verdict;
+            };
             // 2. every record appended before commit j (end <= recovered free offset) is intact
             let file = fs::read(&path).expect("read image");
-            for (off, bytes) in records(calls, calls.len()) {
+            for (off, bytes) in cx.case.base.records.iter().cloned().chain(records(calls, calls.len())) {
                 let end = off as usize + bytes.len();
                 if end as i64 <= t.3 && file.get(off as usize..end) != Some(&bytes[..]) {
                     rec.oracle_fail(what(format!("record at offset {off} (below the recovered free offset {}) is not intact in the image", t.3)));
@@ -536,7 +575,8 @@ fn check_image(cx: &mut Ctx, rec: &mut Recorder, sim: &Sim, ci: usize, k: usize,
                 Ok(Ok(s)) => {
                     rec.count("readback:ok");
                     rec.count_n("readback:cmds", s.cmds.len() as u64);
-                    if let Some(want) = cx.case.snaps.get(&j) {
+                    let want = if j == 0 { cx.case.base.snap.as_ref() } else { cx.case.snaps.get(&j) };
+                    if let Some(want) = want {
                         rec.count("readback:compared");
                         if &s != want {
                             rec.oracle_fail(what(format!(
@@ -630,7 +670,10 @@ fn gen_chis(rng: &mut Rng, sim: &Sim, budget: usize) -> Vec<Vec<String>> {
 
 fn explore(rec: &mut Recorder, rng: &mut Rng, case: &Case, root: &Path, per_point: usize, point_stride: usize, label: &str) -> u64 {
     let mut cx = Ctx { case, root: root.to_path_buf(), images: 0 };
-    let mut sim = Sim::default();
+    let mut sim = case.base.sim.clone();
+    for (rq, rl) in &case.base.prefix_lines {
+        rec.line(rq.clone(), rl.clone());
+    }
     let mut point = 0usize;
     let ncalls = case.calls.len();
     for (ci, call) in case.calls.iter().enumerate() {
@@ -677,53 +720,145 @@ fn explore(rec: &mut Recorder, rng: &mut Rng, case: &Case, root: &Path, per_poin
     cx.images
 }
 
-/// replay: the crash requests are the ones listed in the replay input
-fn explore_replay(rec: &mut Recorder, case: &Case, root: &Path, lines: &[String]) {
-    let mut cx = Ctx { case, root: root.to_path_buf(), images: 0 };
-    let mut sim = Sim::default();
-    let mut ci: Option<usize> = None;
+/// The state after reopening the crash image (k ops of call `ci`, fault choice `chi`) of `case`:
+/// `None` if the real `open` fails on it.
+fn make_base(cx_root: &Path, case: &Case, ci: usize, k: usize, chi: &[String]) -> Option<Base> {
+    let mut sim = case.base.sim.clone();
+    let mut prefix = case.base.prefix_lines.clone();
+    for (i, c) in case.calls.iter().enumerate().take(ci + 1) {
+        prefix.push((call_line(&c.hi), show_ops(&c.ops)));
+        let upto = if i == ci { k } else { c.ops.len() };
+        for o in &c.ops[..upto] {
+            sim.exec(o);
+        }
+    }
+    let (img, size) = sim.crash(chi, true);
+    let dir = fresh_dir(cx_root, "img");
+    let path = dir.join(case.graph.to_string());
+    {
+        let f = fs::File::create(&path).expect("image file");
+        f.write_all_at(&img, 0).expect("write image");
+        f.set_len(size).expect("set_len");
+    }
+    let root = {
+        let mut fm = FileManager::new(&dir).expect("FileManager on image dir");
+        match fm.open(case.graph) {
+            Ok(Some(w)) => w.verif_root(),
+            _ => return None,
+        }
+    };
+    let chi_s = if chi.is_empty() { "-".to_string() } else { chi.join(",") };
+    prefix.push((format!("reopen {k} {chi_s}"), show_root(&root)));
+    let commit_roots: Vec<RootT> =
+        case.calls.iter().filter(|c| matches!(c.hi, Hi::Commit(..))).filter_map(|c| c.after).collect();
+    let snap = if case.base.root == Some(root) {
+        case.base.snap.clone()
+    } else {
+        commit_roots.iter().position(|r| *r == root).and_then(|p| case.snaps.get(&(p + 1)).cloned())
+    };
+    let records = case
+        .base
+        .records
+        .iter()
+        .cloned()
+        .chain(records(&case.calls, case.calls.len()))
+        .filter(|(off, b)| (*off as i64) + (b.len() as i64) <= root.3)
+        .collect();
+    Some(Base {
+        root: Some(root),
+        records,
+        snap,
+        sim: Sim { durable: img, pending: vec![], size, size_pending: None },
+        prefix_lines: prefix,
+    })
+}
+
+/// replay: run the storage calls of the request list directly against the real `Writer`
+/// (`Write`-trait level), answering the crash / reopen requests listed in the replay input
+fn replay(rec: &mut Recorder, root: &Path, lines: &[String]) {
+    let dir = fresh_dir(root, "live");
+    let graph = GraphId::transmute(hash_id(b"c15-replay"));
+    let log: Log = Rc::new(RefCell::new(vec![]));
+    verif_io_log::start();
+    let mut mgr = SpyManager { inner: FileManager::new(&dir).expect("FileManager"), log: log.clone() };
+    let mut w: Option<SpyWriter> = None;
+    let mut base = Base::default();
+    let mut start = 0usize; // first call (index into the log) of the current segment
+    let view = |base: &Base, start: usize| Case {
+        graph,
+        calls: log.borrow()[start..].to_vec(),
+        snaps: BTreeMap::new(),
+        base: base.clone(),
+    };
     for l in lines {
         let t: Vec<&str> = l.split(' ').collect();
         match t[0] {
-            "create" | "append" | "commit" => {
-                if let Some(c) = ci {
-                    for o in &case.calls[c].ops {
-                        sim.exec(o);
-                    }
-                }
-                let n = ci.map_or(0, |c| c + 1);
-                if n >= case.calls.len() {
-                    break;
-                }
-                ci = Some(n);
-                rec.line(l.clone(), show_ops(&case.calls[n].ops));
+            "create" => {
+                w = mgr.create(graph).ok();
+                rec.line(l.clone(), show_ops(&log.borrow().last().expect("logged").ops));
             }
-            "crash" => {
-                let Some(c) = ci else { continue };
+            "append" if t.len() == 2 && w.is_some() => {
+                let b = unhex(t[1]).expect("hex");
+                let _ = w.as_mut().unwrap().append(|_| Raw(b));
+                rec.line(l.clone(), show_ops(&log.borrow().last().expect("logged").ops));
+            }
+            "commit" if t.len() == 3 && w.is_some() => {
+                let b = unhex(t[1]).expect("hex");
+                let heads: HeadSet = postcard::from_bytes(&b).expect("head set bytes");
+                let _ = w.as_mut().unwrap().commit(&heads, FactCacheOffset::new(t[2].parse().expect("fact")));
+                rec.line(l.clone(), show_ops(&log.borrow().last().expect("logged").ops));
+            }
+            "crash" | "reopen" if t.len() == 3 && log.borrow().len() > start => {
+                let case = view(&base, start);
+                let ci = case.calls.len() - 1;
                 let k: usize = t[1].parse().expect("k");
-                let call = &case.calls[c];
-                if k > call.ops.len() {
+                if k > case.calls[ci].ops.len() {
                     rec.line(l.clone(), "bad-op");
                     continue;
                 }
-                let mut s = sim.clone();
-                for o in &call.ops[..k] {
-                    s.exec(o);
+                let mut s = case.base.sim.clone();
+                for (i, c) in case.calls.iter().enumerate() {
+                    let upto = if i == ci { k } else { c.ops.len() };
+                    for o in &c.ops[..upto] {
+                        s.exec(o);
+                    }
                 }
-                let chi: Vec<String> = if t[2] == "-" { vec![] } else { t[2].split(',').map(|x| x.to_string()).collect() };
+                let mut chi: Vec<String> = if t[2] == "-" { vec![] } else { t[2].split(',').map(|x| x.to_string()).collect() };
+                let mut line = l.clone();
                 if !chi.is_empty() && chi.len() != s.pending.len() {
-                    // the op stream changed shape since the replay was written: all-kept instead
-                    let chi = vec!["1".to_string(); s.pending.len()];
-                    let real = check_image(&mut cx, rec, &s, c, k, &chi, true, "replay");
-                    rec.line(format!("crash {k} {}", if chi.is_empty() { "-".into() } else { chi.join(",") }), real);
-                    continue;
+                    // the op stream changed shape since the replay was written: keep everything
+                    chi = vec!["1".to_string(); s.pending.len()];
+                    line = format!("{} {k} {}", t[0], if chi.is_empty() { "-".into() } else { chi.join(",") });
                 }
-                let real = check_image(&mut cx, rec, &s, c, k, &chi, true, "replay");
-                rec.line(l.clone(), real);
+                if t[0] == "crash" {
+                    let mut cx = Ctx { case: &case, root: root.to_path_buf(), images: 0 };
+                    let real = check_image(&mut cx, rec, &s, ci, k, &chi, true, "replay");
+                    rec.line(line, real);
+                } else {
+                    match make_base(root, &case, ci, k, &chi) {
+                        None => rec.line(line, "err"),
+                        Some(mut b) => {
+                            rec.line(line, show_root(&b.root.unwrap()));
+                            b.prefix_lines.clear();
+                            // continue on the image with the real writer
+                            drop(w.take());
+                            let (img, size) = b.sim.crash(&[], false);
+                            let f = fs::File::create(dir.join(graph.to_string())).expect("image file");
+                            f.write_all_at(&img, 0).expect("write image");
+                            f.set_len(size).expect("set_len");
+                            drop(f);
+                            w = mgr.open(graph).ok().flatten();
+                            base = b;
+                            start = log.borrow().len();
+                        }
+                    }
+                }
             }
             _ => rec.line(l.clone(), "bad-op"),
         }
     }
+    drop(w);
+    let _ = verif_io_log::stop();
 }
 
 fn main() {
@@ -734,8 +869,7 @@ fn main() {
     if let Some(p) = &args.replay {
         let lines = vh::read_replay_input(p);
         rec.begin_case();
-        let case = record_replay(&root, &lines);
-        explore_replay(&mut rec, &case, &root, &lines);
+        replay(&mut rec, &root, &lines);
         let _ = fs::remove_dir_all(&root);
         rec.finish(args.seed, &args.tier);
         return;
@@ -768,6 +902,40 @@ fn main() {
             case.calls.iter().find(|c| matches!(c.hi, Hi::Commit(..))).map(|c| show_ops(&c.ops)).unwrap_or_default()
         ));
         images += explore(&mut rec, &mut rng, &case, &root, per_point, stride, &label);
+
+        // continue after a crash + reopen: once on an image that recovers the commit in progress
+        // (root written, final barrier missing), once on one that lost unsynced appends
+        let commit_idx: Vec<usize> =
+            case.calls.iter().enumerate().filter(|(_, c)| matches!(c.hi, Hi::Commit(..))).map(|(i, _)| i).collect();
+        let mut picks: Vec<(usize, usize, Vec<String>)> = vec![];
+        if let Some(&ci) = commit_idx.get(commit_idx.len() / 2) {
+            let m = case.calls[ci].ops.len();
+            picks.push((ci, m - 1, vec!["1".to_string(); 2]));
+            if deep {
+                picks.push((ci, m - 1, vec!["1".to_string(), "p9".to_string()]));
+            }
+        }
+        if let Some(ci) = (0..case.calls.len()).rev().find(|&i| matches!(case.calls[i].hi, Hi::Append(..))) {
+            picks.push((ci, case.calls[ci].ops.len(), vec![]));
+        }
+        if !deep {
+            picks.truncate(if n == 0 { 0 } else { 2 });
+        }
+        for (pi, (ci, k, chi)) in picks.into_iter().enumerate() {
+            let Some(base) = make_base(&root, &case, ci, k, &chi) else {
+                rec.count("cont:open_failed");
+                continue;
+            };
+            rec.begin_case();
+            rec.count("cont:cases");
+            let label = format!("case{n}.cont{pi}");
+            let cont = record_continuation(&mut rec, &mut rng, &root, case.graph, base, if deep { 4 } else { 2 });
+            rec.count_n("commits", commits_done(&cont.calls) as u64);
+            rec.count_n("ops", cont.calls.iter().map(|c| c.ops.len() as u64).sum());
+            let sig = cont.base.prefix_lines.iter().map(|l| l.0.clone()).chain(cont.calls.iter().map(|c| call_line(&c.hi))).collect::<Vec<_>>().join("\n");
+            rec.nontrivial(fnv(&sig));
+            images += explore(&mut rec, &mut rng, &cont, &root, per_point, if deep { 1 } else { 2 }, &label);
+        }
     }
     rec.count_n("images", images);
     rec.notes.push(format!("{images} crash images materialised and reopened with the real FileManager + LinearStorage"));
